@@ -29,13 +29,13 @@ theorem tables_pinned :
 reads one unescapes it: the call sites of `formulaEscaper.Replace` /
 `formulaUnescaper.Replace` are the ones the round-trip argument relies on
 (SetDropList, SetRange, SetSqrefDropList and the row/column adjuster write;
-unescapeDataValidationFormula and the adjuster read). A dropped or added call
+getDataValidations, unescapeDataValidationFormula and the adjuster read). A dropped or added call
 changes this fact. -/
 theorem escaper_call_sites_pinned :
     Facts.C18.formulaEscaperCallers =
       [("SetDropList", 2), ("SetRange", 1), ("SetSqrefDropList", 1), ("adjustDataValidations", 2)] ∧
     Facts.C18.formulaUnescaperCallers =
-      [("adjustDataValidations", 2), ("unescapeDataValidationFormula", 2)] := by decide
+      [("adjustDataValidations", 2), ("getDataValidations", 2), ("unescapeDataValidationFormula", 1)] := by decide
 
 /-- `assignFieldValue` has a case for bool, int and float64 (string goes through the default) -/
 theorem assign_kinds_pinned :
@@ -141,24 +141,50 @@ theorem copy_panics_on_kind_mismatch :
 the identity on every string -/
 theorem escape_roundtrip (s : List Char) : unescape (escape s) = s := unescape_escape s
 
-/-- a drop list reads back as the quoted, unescaped list for every joined text that
-is within the length limit, does not start with `=` and contains at least one
-character other than `"` — partial: see `finding_droplist_only_quotes` -/
-theorem droplist_roundtrip_partial (f : List Char) (hlen : ¬ Facts.MaxFieldLength < utf16Len f)
-    (heq : ['='].isPrefixOf f = false) (hne : ∃ c ∈ f, c ≠ '"') :
+theorem getLast_snoc (l : List Char) (b : Char) : (l ++ [b]).getLast? = some b := by
+  induction l with
+  | nil => rfl
+  | cons a l ih =>
+    cases l with
+    | nil => rfl
+    | cons c r =>
+      simp only [List.cons_append] at ih ⊢
+      rw [List.getLast?_cons_cons]
+      exact ih
+
+/-- the decoded form of a quote-enclosed text -/
+theorem unescapeDV_wrapped (x : List Char) :
+    unescapeDV ('"' :: quote (escape x) ++ ['"']) = '"' :: x ++ ['"'] := by
+  have hu : unescape ('"' :: quote (escape x) ++ ['"']) = '"' :: quote x ++ ['"'] := by
+    simp only [List.cons_append]
+    rw [unescape_other _ _ (by decide), unescape_quote_escape]
+    have : unescape ['"'] = ['"'] := by decide
+    rw [this]
+  unfold unescapeDV
+  simp only [hu]
+  have h1 : ('"' :: quote x ++ ['"']).length > 1 := by simp
+  have h2 : [dq].isPrefixOf ('"' :: quote x ++ ['"']) = true := by simp [dq, List.isPrefixOf]
+  have h3 : ('"' :: quote x ++ ['"']).getLast? = some dq := by
+    have := getLast_snoc ('"' :: quote x) '"'
+    simpa [dq] using this
+  have h4 : (('"' :: quote x ++ ['"']).drop 1).dropLast = quote x := by
+    simp
+  simp only [h1, h2, h3, h4, decide_true, Bool.and_self, beq_self_eq_true, if_true]
+  have := unquote_quote_append x []
+  have hn : unquote [] = [] := rfl
+  rw [List.append_nil, hn, List.append_nil] at this
+  rw [this]; rfl
+
+/-- a drop list reads back as the quoted, unescaped list — FULL after the repair of the
+quote decoding: for every joined text within the length limit that does not start with `=` -/
+theorem droplist_roundtrip (f : List Char) (hlen : ¬ Facts.MaxFieldLength < utf16Len f)
+    (heq : ['='].isPrefixOf f = false) :
     (setDropList f).map unescapeDV = some ('"' :: f ++ ['"']) := by
   have h1 : setDropList f = some ('"' :: quote (escape f) ++ ['"']) := by
     simp [setDropList, hlen, heq, dq]
   rw [h1]
   simp only [Option.map_some, Option.some.injEq]
-  have hp : [dq].isPrefixOf ('"' :: quote (escape f) ++ ['"']) = true := by simp [dq, List.isPrefixOf]
-  unfold unescapeDV
-  rw [hp]
-  simp only [if_true, List.cons_append]
-  rw [unescape_other _ _ (by decide), unescape_quote_escape]
-  have : unescape ['"'] = ['"'] := by decide
-  rw [this]
-  exact unquote_wrapped f hne
+  exact unescapeDV_wrapped f
 
 /-- a formula-style list (`=…`) is only escaped, and reads back verbatim -/
 theorem droplist_formula_roundtrip (f : List Char) (hlen : ¬ Facts.MaxFieldLength < utf16Len f)
@@ -170,65 +196,44 @@ theorem droplist_formula_roundtrip (f : List Char) (hlen : ¬ Facts.MaxFieldLeng
   | cons c r =>
     have hc : '=' = c := by simpa [List.isPrefixOf] using heq
     subst hc
-    have he : escape ('=' :: r) = '=' :: escape r := by rw [escape_cons]; rfl
     simp only [Option.map_some, Option.some.injEq]
     unfold unescapeDV
-    rw [he]
-    have : [dq].isPrefixOf ('=' :: escape r) = false := by simp [dq, List.isPrefixOf]
-    rw [this, ← he]
-    exact unescape_escape _
+    simp only [unescape_escape]
+    have : [dq].isPrefixOf ('=' :: r) = false := by simp [dq, List.isPrefixOf]
+    simp [this]
 
-/-- finding: the full statement of `droplist_roundtrip_partial` fails without the
-"not only quotes" hypothesis: the one-item list `"` is stored as `""""` and decoded
-to `""` (two characters) instead of `"""` -/
-theorem finding_droplist_only_quotes :
-    (setDropList ['"']).map unescapeDV = some ['"', '"'] ∧ ['"', '"'] ≠ ('"' :: ['"'] ++ ['"']) := by decide
+/-- regression of the fixed finding dv:droplist:Formula1:only-quotes: the one-item list `"`
+now reads back as `"""` -/
+theorem droplist_only_quotes_regression :
+    (setDropList ['"']).map unescapeDV = some ['"', '"', '"'] ∧
+    (setDropList []).map unescapeDV = some ['"', '"'] := by decide
 
 /-! ### data-validation formulas set by SetRange / SetSqrefDropList -/
 
-/-- `dv_set_get_roundtrip` for the formula fields, partial: SetRange (string formula) and
-SetSqrefDropList store `formulaEscaper(f)` as inner XML; GetDataValidations returns
-`unescapeDataValidationFormula` of it: equal to `f` for every formula that does not start
-with a double quote (after the XML round trip of the inner text, which is the identity on
-escaped text — not modelled) -/
-theorem dv_formula_roundtrip_partial (f : List Char) (h : [dq].isPrefixOf f = false) :
-    unescapeDV (escape f) = f := by
-  have hp : [dq].isPrefixOf (escape f) = false := by
-    cases f with
-    | nil => rfl
-    | cons c r =>
-      have hc : c ≠ '"' := by
-        intro e; subst e; simp [dq, List.isPrefixOf] at h
-      rw [escape_cons]
-      unfold escChar
-      by_cases h1 : c = '&'
-      · subst h1; simp [dq, List.isPrefixOf]
-      · by_cases h2 : c = '<'
-        · subst h2; simp [dq, List.isPrefixOf]
-        · by_cases h3 : c = '>'
-          · subst h3; simp [dq, List.isPrefixOf]
-          · have : ('"' == c) = false := by simpa using fun e => hc e.symm
-            simp [h1, h2, h3, dq, List.isPrefixOf, this]
-  unfold unescapeDV
-  rw [hp]
-  exact unescape_escape f
+/-- `dv_formula_roundtrip`, FULL after the repair: SetRange (string formula) stores
+`formulaEscaper(f)`; GetDataValidations returns every formula that is not the first formula
+of a list validation through `formulaUnescaper` only: set/get is the identity on ALL formulas -/
+theorem dv_formula_roundtrip (f : List Char) : getFormula false (escape f) = f := by
+  simp [getFormula, unescape_escape]
 
-/-- a formula that starts with a double quote (a string literal) is additionally
-un-doubled by the getter's "text detection" -/
-theorem dv_formula_quoted (r : List Char) :
-    unescapeDV (escape ('"' :: r)) = unquote ('"' :: r) := by
-  have he : escape ('"' :: r) = '"' :: escape r := by rw [escape_cons]; rfl
+/-- the first formula of a list validation set through SetSqrefDropList reads back as set
+unless it is enclosed in double quotes (then it IS a drop-list text and is decoded as one) -/
+theorem dv_sqref_droplist_roundtrip_partial (f : List Char)
+    (h : ([dq].isPrefixOf f && f.getLast? == some dq) = false) :
+    getFormula true (escape f) = f := by
+  simp only [getFormula, if_true]
   unfold unescapeDV
-  have hp : [dq].isPrefixOf (escape ('"' :: r)) = true := by rw [he]; simp [dq, List.isPrefixOf]
-  rw [hp]
-  simp only [if_true]
-  rw [unescape_escape]
+  simp only [unescape_escape]
+  have : (decide (f.length > 1) && [dq].isPrefixOf f && f.getLast? == some dq) = false := by
+    cases hd : decide (f.length > 1) <;> simp_all
+  simp [this]
 
-/-- finding (dv:Formula1:string-literal-doubled-quote): the string literal `"a""b"` set
-through SetRange reads back as `"a"b"` — the getter treats every formula starting with a
-quote as a drop list written by SetDropList -/
-theorem finding_dv_string_literal_quotes :
-    unescapeDV (escape ['"', 'a', '"', '"', 'b', '"']) = ['"', 'a', '"', 'b', '"'] := by decide
+/-- regression of the fixed finding dv:Formula1:string-literal-doubled-quote, and the witness
+for the hypothesis of `dv_sqref_droplist_roundtrip_partial`: as a non-list formula `"a""b"`
+is returned as set; as the first formula of a LIST validation it is a drop-list text -/
+theorem dv_string_literal_regression :
+    getFormula false (escape ['"', 'a', '"', '"', 'b', '"']) = ['"', 'a', '"', '"', 'b', '"'] ∧
+    getFormula true (escape ['"', 'a', '"', '"', 'b', '"']) = ['"', 'a', '"', 'b', '"'] := by decide
 
 /-! ## legacy XOR password hash -/
 
@@ -311,98 +316,148 @@ theorem xor_refuses_iff_hash_differs (H : IsoHash) (pw q : List Char) (hpw : pw.
 
 /-! ## defined names -/
 
-/-- the scope `GetDefinedName` reports for a name set with scope `s` -/
-def resolvedScope (sheets : List (List Char)) (s : List Char) : List Char :=
-  match (if s.isEmpty then none else sheetIndex sheets s) with
+/-- the scope `GetDefinedName` reports for a stored local sheet ID -/
+def scopeName (sheets : List (List Char)) : Option Nat → List Char
   | some i => sheetName sheets i
   | none => workbookS
 
-/-- Clause "the matching getter returns an equal structure" for defined names: an
-accepted `SetDefinedName` appends exactly one item, equal to the one set with its
-scope resolved, and leaves every listed item as it was -/
+/-- Clause "the matching getter returns an equal structure" for defined names: an accepted
+`SetDefinedName` appends exactly one item, equal to the one set with its scope resolved
+(case-insensitive sheet lookup, "" = "Workbook"), and leaves every listed item as it was -/
 theorem definedname_set_get (st st' : DNState) (d : DN) (h : setDN st d = .ok st') :
-    getDN st' = getDN st ++ [⟨d.name, resolvedScope st.sheets d.scope, d.refersTo, d.comment⟩] ∧
-    st'.sheets = st.sheets := by
+    ∃ id, resolveScope st.sheets d.scope = .ok id ∧
+      getDN st' = getDN st ++ [⟨d.name, scopeName st.sheets id, d.refersTo, d.comment⟩] ∧
+      st'.sheets = st.sheets := by
   unfold setDN at h
   split at h
   · cases h
   · split at h
     · cases h
-    · dsimp only at h
-      split at h
-      · cases h
-      · injection h with h; subst h
-        constructor
-        · simp only [getDN, List.map_append, List.map_cons, List.map_nil, storedScopeGet, resolvedScope]
-          rfl
-        · rfl
+    · cases hr : resolveScope st.sheets d.scope with
+      | error e => simp [hr] at h
+      | ok id =>
+        simp only [hr] at h
+        split at h
+        · cases h
+        · injection h with h; subst h
+          refine ⟨id, rfl, ?_, rfl⟩
+          simp only [getDN, List.map_append, List.map_cons, List.map_nil, storedScopeGet, scopeName]
+          cases id <;> rfl
 
-/-- Clause "deleting … removes exactly that item": an accepted `DeleteDefinedName`
-removes one item that matches (name, scope), the first such, and nothing else -/
+/-- a scope that names no sheet is rejected (fixed finding definedname:Scope:unknown-sheet-accepted) -/
+theorem definedname_unknown_scope_rejected (st : DNState) (d : DN)
+    (h : resolveScope st.sheets d.scope = .error .scope) : ∃ e, setDN st d = .error e := by
+  unfold setDN
+  split
+  · exact ⟨_, rfl⟩
+  · split
+    · exact ⟨_, rfl⟩
+    · simp [h]
+
+/-- no two stored names share name and scope -/
+def Unique (st : DNState) : Prop :=
+  st.names.Pairwise (fun a b => ¬ (a.localSheetID = b.localSheetID ∧ eqFold a.name b.name = true))
+
+/-- `definedname_unique` (fixed finding definedname:duplicate): whatever spelling of the scope
+is used, an accepted `SetDefinedName` never stores the same name (names are not
+case-sensitive) twice in one scope -/
+theorem definedname_unique (st st' : DNState) (d : DN) (hu : Unique st) (h : setDN st d = .ok st') :
+    Unique st' := by
+  unfold setDN at h
+  split at h
+  · cases h
+  · split at h
+    · cases h
+    · cases hr : resolveScope st.sheets d.scope with
+      | error e => simp [hr] at h
+      | ok id =>
+        simp only [hr] at h
+        split at h
+        · cases h
+        · rename_i hany
+          injection h with h; subst h
+          unfold Unique
+          simp only [List.pairwise_append, List.pairwise_cons, List.Pairwise.nil, List.mem_singleton]
+          refine ⟨hu, ⟨by simp, trivial⟩, ?_⟩
+          intro a ha b hb
+          subst hb
+          intro hab
+          apply hany
+          simp only [List.any_eq_true]
+          exact ⟨a, ha, by simp [hab.1, hab.2]⟩
+
+/-- Clause "deleting … removes exactly that item": an accepted `DeleteDefinedName` removes one
+item with that name in that (resolved) scope, the first such, and nothing else -/
 theorem definedname_delete_exactly_one (st st' : DNState) (n s : List Char) (h : delDN st n s = .ok st') :
-    ∃ l1 x l2, st.names = l1 ++ x :: l2 ∧ st'.names = l1 ++ l2 ∧ st'.sheets = st.sheets ∧
-      delMatch st.sheets n s x = true ∧ ∀ y ∈ l1, delMatch st.sheets n s y = false := by
+    ∃ id l1 x l2, resolveScope st.sheets s = .ok id ∧ st.names = l1 ++ x :: l2 ∧ st'.names = l1 ++ l2 ∧
+      st'.sheets = st.sheets ∧ sameName id n x = true ∧ ∀ y ∈ l1, sameName id n y = false := by
   unfold delDN at h
-  cases hd : delFirst (delMatch st.sheets n s) st.names with
-  | none => simp [hd] at h
-  | some l =>
-    simp [hd] at h; subst h
-    obtain ⟨l1, x, l2, e1, e2, hx, hall⟩ := delFirst_spec _ _ _ hd
-    exact ⟨l1, x, l2, e1, e2, rfl, hx, hall⟩
+  cases hr : resolveScope st.sheets s with
+  | error e => simp [hr] at h
+  | ok id =>
+    simp only [hr] at h
+    cases hd : delFirst (sameName id n) st.names with
+    | none => simp [hd] at h
+    | some l =>
+      simp [hd] at h; subst h
+      obtain ⟨l1, x, l2, e1, e2, hx, hall⟩ := delFirst_spec _ _ _ hd
+      exact ⟨id, l1, x, l2, rfl, e1, e2, rfl, hx, hall⟩
 
-/-- a refused delete changes nothing (there is no state in the error result) and is
-refused only when no listed item matches -/
-theorem definedname_delete_refused_iff (st : DNState) (n s : List Char) :
-    (∃ e, delDN st n s = .error e) ↔ ∀ y ∈ st.names, delMatch st.sheets n s y = false := by
-  unfold delDN
-  generalize st.names = l
+theorem delFirst_isSome_of_mem (p : XDN → Bool) : ∀ (l : List XDN) (x : XDN), x ∈ l → p x = true →
+    ∃ l', delFirst p l = some l' := by
+  intro l
   induction l with
-  | nil => simp [delFirst]
+  | nil => intro x hx; simp at hx
   | cons a l ih =>
-    by_cases ha : delMatch st.sheets n s a = true
-    · simp [delFirst, ha]
-    · have ha' : delMatch st.sheets n s a = false := by simpa using ha
-      simp only [delFirst, ha', Bool.false_eq_true, if_false, List.mem_cons, forall_eq_or_imp, true_and]
-      rw [← ih]
-      cases delFirst (delMatch st.sheets n s) l <;> simp
+    intro x hx hp
+    by_cases ha : p a = true
+    · exact ⟨l, by simp [delFirst, ha]⟩
+    · simp only [List.mem_cons] at hx
+      rcases hx with e | e
+      · subst e; exact absurd hp ha
+      · obtain ⟨l', hl⟩ := ih x e hp
+        exact ⟨a :: l', by simp [delFirst, ha, hl]⟩
+
+/-- fixed finding definedname:delete-refused: a name that was just set can be deleted with the
+very same structure (same name, same spelling of the scope) -/
+theorem definedname_set_then_delete (st st' : DNState) (d : DN) (h : setDN st d = .ok st') :
+    ∃ st'', delDN st' d.name d.scope = .ok st'' := by
+  obtain ⟨id, hr, _, hs⟩ := definedname_set_get st st' d h
+  have hmem : (⟨d.name, d.refersTo, d.comment, id⟩ : XDN) ∈ st'.names := by
+    unfold setDN at h
+    split at h
+    · cases h
+    · split at h
+      · cases h
+      · simp only [hr] at h
+        split at h
+        · cases h
+        · injection h with h; subst h; simp
+  obtain ⟨l', hl⟩ := delFirst_isSome_of_mem (sameName id d.name) st'.names _ hmem (by simp [sameName])
+  unfold delDN
+  rw [hs, hr]
+  simp [hl]
 
 def wSheets : List (List Char) := ["Sheet1".toList, "Data".toList, "other".toList]
 
-/-- finding: the same name can be stored twice in one scope (scope spelled
-"Sheet1" then "sheet1"; likewise "" then "Workbook") -/
-theorem finding_definedname_duplicate :
+/-- regressions of the three fixed defined-name findings on their recorded witnesses: the second
+spelling of the scope is a duplicate, an unknown sheet is rejected, set-then-delete with "DATA" works -/
+theorem definedname_regressions :
     (match setDN ⟨wSheets, []⟩ ⟨"Amount".toList, "Sheet1".toList, "Sheet1!$A$2".toList, []⟩ with
      | .ok s1 => (match setDN s1 ⟨"Amount".toList, "sheet1".toList, "Sheet1!$A$2".toList, []⟩ with
-        | .ok s2 => (getDN s2).map (fun d => (d.name, d.scope)) ==
-            [("Amount".toList, "Sheet1".toList), ("Amount".toList, "Sheet1".toList)]
-        | .error _ => false)
+        | .error e => e == .duplicate
+        | .ok _ => false)
      | .error _ => false) = true ∧
     (match setDN ⟨wSheets, []⟩ ⟨"Amount".toList, [], "Sheet1!$A$2".toList, []⟩ with
      | .ok s1 => (match setDN s1 ⟨"Amount".toList, "Workbook".toList, "Sheet1!$B$2".toList, []⟩ with
-        | .ok s2 => (getDN s2).map (fun d => (d.name, d.scope)) ==
-            [("Amount".toList, "Workbook".toList), ("Amount".toList, "Workbook".toList)]
-        | .error _ => false)
-     | .error _ => false) = true := by decide
-
-/-- finding: a scope naming no sheet is accepted and reads back as "Workbook" -/
-theorem finding_definedname_unknown_scope :
+        | .error e => e == .duplicate
+        | .ok _ => false)
+     | .error _ => false) = true ∧
     (match setDN ⟨wSheets, []⟩ ⟨"Amount".toList, "Nope".toList, "Sheet1!$A$2".toList, []⟩ with
-     | .ok s1 => (getDN s1).map (fun d => d.scope) == ["Workbook".toList]
-     | .error _ => false) = true := by decide
-
-/-- finding: a name set with scope "DATA" (stored on sheet "Data") cannot be deleted
-with the same structure -/
-theorem finding_definedname_delete_refused :
+     | .error e => e == .scope
+     | .ok _ => false) = true ∧
     (match setDN ⟨wSheets, []⟩ ⟨"Rate".toList, "DATA".toList, "Data!$A$2".toList, []⟩ with
      | .ok s1 => (match delDN s1 "Rate".toList "DATA".toList with
-        | .error _ => true
-        | .ok _ => false)
-     | .error _ => false) = true := by decide
-
-/-- with the scope spelled as the getter reports it, set-then-delete restores the list -/
-theorem definedname_set_delete_example :
-    (match setDN ⟨wSheets, []⟩ ⟨"Rate".toList, "Data".toList, "Data!$A$2".toList, []⟩ with
-     | .ok s1 => (match delDN s1 "Rate".toList "Data".toList with
         | .ok s2 => (getDN s2).isEmpty
         | .error _ => false)
      | .error _ => false) = true := by decide
@@ -633,9 +688,39 @@ theorem view_zoom_firstpage_roundtrip (oldV newV : List Char) (oldZ newZ : Int) 
     have h2 : newP ≠ 0 := by omega
     simp [setFirstPage, getFirstPage, h1, h2]
 
-/-- finding (sheetview:View:invalid-value, sheetview:ZoomScale:out-of-range,
-layout:FirstPageNumber:zero): the full statement fails without the validity hypotheses — the
-setter has no error path for these fields, the value is dropped and the previous one stays -/
+/-- fixed findings sheetview:View:invalid-value / sheetview:ZoomScale:out-of-range:
+`SetSheetView` now validates both against the documented ranges: an invalid value is an ERROR
+and nothing is stored; a valid pair is stored and reads back -/
+theorem sheetview_validates (st : List Char × Int) (v : List Char) (z : Int) :
+    ((Facts.C18.sheetViewNames.any (fun n => n.toList == v) = false ∨ z < 10 ∨ 400 < z) →
+      setSheetViewVZ st v z = none) ∧
+    ((Facts.C18.sheetViewNames.any (fun n => n.toList == v) = true ∧ 10 ≤ z ∧ z ≤ 400) →
+      ∃ st', setSheetViewVZ st v z = some st' ∧ getView st'.1 = v ∧ getZoom st'.2 = z) := by
+  have hg := ignore_guards_pinned
+  constructor
+  · intro h
+    unfold setSheetViewVZ
+    rcases h with h | h | h
+    · simp [h]
+    · by_cases hv : Facts.C18.sheetViewNames.any (fun n => n.toList == v) = true
+      · have : z < (Facts.C18.zoomMin : Int) ∨ z > (Facts.C18.zoomMax : Int) := by rw [hg.2.1]; left; omega
+        simp [hv, this]
+      · simp [hv]
+    · by_cases hv : Facts.C18.sheetViewNames.any (fun n => n.toList == v) = true
+      · have : z < (Facts.C18.zoomMin : Int) ∨ z > (Facts.C18.zoomMax : Int) := by rw [hg.2.2.1]; right; omega
+        simp [hv, this]
+      · simp [hv]
+  · intro ⟨hv, h1, h2⟩
+    have hz : ¬ (z < (Facts.C18.zoomMin : Int) ∨ z > (Facts.C18.zoomMax : Int)) := by
+      rw [hg.2.1, hg.2.2.1]; omega
+    refine ⟨(setView st.1 v, setZoom st.2 z), by simp [setSheetViewVZ, hv, hz], ?_, ?_⟩
+    · exact (view_zoom_firstpage_roundtrip st.1 v st.2 z none 1 hv ⟨h1, h2⟩ (by omega)).1
+    · exact (view_zoom_firstpage_roundtrip st.1 v st.2 z none 1 hv ⟨h1, h2⟩ (by omega)).2.1
+
+/-- the inner guards of setSheetView (now unreachable through SetSheetView for invalid values)
+and the still OPEN finding layout:FirstPageNumber:zero: `SetPageLayout` has no error path
+for FirstPageNumber = 0 (the documentation gives no range), the value is dropped and the
+previous one stays -/
 theorem finding_invalid_values_ignored (oldV newV : List Char) (oldZ newZ : Int) (oldP : Option Nat)
     (hv : Facts.C18.sheetViewNames.any (fun n => n.toList == newV) = false)
     (hz : newZ < 10 ∨ 400 < newZ) :
